@@ -198,41 +198,51 @@ func checkC07(c *Ctx) {
 				if st.Dir != types.RecvOnly {
 					continue
 				}
-				// a channel made in this function and stored into a table whose channels get closed elsewhere
-				mk, isMake := unspill(st.Chan).(*ssa.MakeChan)
-				if !isMake {
-					continue
+				// a channel made in this function (or by a registering helper) and stored into a table whose channels get
+				// closed elsewhere
+				chv := unspill(st.Chan)
+				var elemT types.Type
+				if ct, ok := chv.Type().Underlying().(*types.Chan); ok {
+					elemT = ct.Elem()
 				}
 				inTable := ""
-				chanVals := []ssa.Value{mk}
-				for _, r := range *mk.Referrers() {
-					if stc, ok := r.(*ssa.Store); ok && stc.Val == ssa.Value(mk) {
-						// captured by a closure: the loads of the cell are the channel too
-						if al, ok := stc.Addr.(*ssa.Alloc); ok {
-							for _, rr := range *al.Referrers() {
-								if u, ok := rr.(*ssa.UnOp); ok {
-									chanVals = append(chanVals, u)
+				if mk, isMake := chv.(*ssa.MakeChan); isMake {
+					chanVals := []ssa.Value{mk}
+					for _, r := range *mk.Referrers() {
+						if stc, ok := r.(*ssa.Store); ok && stc.Val == ssa.Value(mk) {
+							// captured by a closure: the loads of the cell are the channel too
+							if al, ok := stc.Addr.(*ssa.Alloc); ok {
+								for _, rr := range *al.Referrers() {
+									if u, ok := rr.(*ssa.UnOp); ok {
+										chanVals = append(chanVals, u)
+									}
 								}
 							}
 						}
 					}
-				}
-				for _, cv := range chanVals {
-					if cv.Referrers() == nil {
-						continue
-					}
-					for _, r := range *cv.Referrers() {
-						if mu, ok := r.(*ssa.MapUpdate); ok && mu.Value == cv {
-							if f, _, ok := ir.LoadedField(mu.Map); ok {
-								inTable = f.Key()
+					for _, cv := range chanVals {
+						if cv.Referrers() == nil {
+							continue
+						}
+						for _, r := range *cv.Referrers() {
+							if mu, ok := r.(*ssa.MapUpdate); ok && mu.Value == cv {
+								if f, _, ok := ir.LoadedField(mu.Map); ok {
+									inTable = f.Key()
+								}
 							}
 						}
 					}
+				} else {
+					for _, t := range registeredIn(c, chv, 0) {
+						if closedFields[t] {
+							inTable = t
+						}
+					}
 				}
-				if inTable == "" || !closedFields[inTable] {
+				if inTable == "" || !closedFields[inTable] || elemT == nil {
 					continue
 				}
-				if _, isPtr := mk.Type().(*types.Chan).Elem().Underlying().(*types.Pointer); !isPtr {
+				if _, isPtr := elemT.Underlying().(*types.Pointer); !isPtr {
 					continue
 				}
 				nRecv++
